@@ -38,7 +38,10 @@ class Lin:
         return any(k.startswith("?") for k in self.t)
 
     def __eq__(self, o):
-        return self.t == o.t and self.c == o.c
+        return isinstance(o, Lin) and self.t == o.t and self.c == o.c
+
+    def __hash__(self):
+        return hash((tuple(sorted(self.t.items())), self.c))
 
     def __repr__(self):
         parts = []
